@@ -77,5 +77,13 @@ func runC02(tier string, seed uint64, o *Out) error {
 			return err
 		}
 	}
+	// idle timeout (reads the wall clock, cannot be stepped): SQL level, judged on observable facts
+	nidle := 3
+	if tier == "thorough" {
+		nidle = 12
+	}
+	if err := idleCases(o, nidle); err != nil {
+		return err
+	}
 	return nil
 }
